@@ -32,7 +32,7 @@ ASSUMPTIONS = [
     "bound for calls in progress: 10 s command timeout + 16 s (five ACK timeouts of at most 3.2 s) + 0.5 s slack after the injection",
 ]
 PROBES = ["faulty_link_before_injection", "failure_frame_destroyed_by_line", "threaded.runs", "threaded.preempted_in_proxy", "kind.error", "kind.rstack", "kind.silent", "kind.lost", "kind.eof", "kind.close", "workload.idle", "workload.one", "workload.queued",
-          "workload.reset", "workload.startup", "reported", "reported_twice", "silent_detected_by_retries", "silent_during_reset_timeout",
+          "workload.reset", "workload.startup", "reported", "reported_twice", "silent_detected_by_retries", "silent_during_reset_timeout", "silent_but_nak.nak", "silent_but_nak.naklast",
           "data_received_raised", "inject_at_timer_deadline", "calls_in_progress_at_injection", "caller_cancelled_after_injection", "failure_before_registration", "registry_history.overlap", "registry_history.churn", "registry_history.both", "command_after_report_raised_other_than_ezsp_error", "sched.batch", "sched.reorder", "sched.join"]
 
 WORKLOADS = ("idle", "one", "queued", "reset", "startup")
@@ -71,6 +71,10 @@ def plan(tier):
                     # the same failure after the callback registry went through a history around the application's registration
                     for h in HISTORIES[1:]:
                         sweeps.append(("inject", {"workload": w, "kind": kind, "code": codes[0], "at": at, "sched": False, "hist": h}))
+                if kind == "silent" and w in ("idle", "one", "queued") and at in pts[::3]:
+                    # an NCP that stops acknowledging without going quiet: every DATA frame (or only the last copy of one) is answered with a NAK
+                    for deaf in ("nak", "naklast"):
+                        sweeps.append(("inject", {"workload": w, "kind": kind, "code": None, "at": at, "sched": False, "deaf": deaf}))
                 if kind == "silent" and w in ("idle", "one", "queued"):
                     # the callers give up (are cancelled) while the link layer is still retrying: the failure must be reported all the same
                     for ca in (2.0, 12.0):
@@ -108,7 +112,7 @@ def run(scenario, params, tape, detail=False):
         return run_threaded_one(params, tape, detail)
     if scenario == "inject":
         return run_one(params["workload"], params["kind"], params["code"], params["at"], tape, params.get("sched", True), detail, cancel_after=params.get("cancel_after"),
-                       prefail=params.get("prefail", False), rst_delay=params.get("rst_delay", 0.3), hist=params.get("hist"))
+                       prefail=params.get("prefail", False), rst_delay=params.get("rst_delay", 0.3), hist=params.get("hist"), deaf=params.get("deaf"))
     w = WORKLOADS[tape.draw(len(WORKLOADS), "workload")]
     kind = KINDS[tape.draw(len(KINDS), "kind")]
     code = None
@@ -118,7 +122,8 @@ def run(scenario, params, tape, detail=False):
         code = RST_CODES[tape.draw(len(RST_CODES), "code")]
     prefail = kind != "silent" and scenario not in ("faulty", "history") and tape.draw(5, "prefail") == 4
     hist = HISTORIES[1 + tape.draw(len(HISTORIES) - 1, "hist")] if scenario == "history" else None
-    return run_one(w, kind, code, ("draw",), tape, True, detail, faulty=(scenario == "faulty"), prefail=prefail, hist=hist)
+    deaf = (None, "nak", "naklast")[tape.draw(3, "deaf")] if kind == "silent" and scenario == "random" else None
+    return run_one(w, kind, code, ("draw",), tape, True, detail, faulty=(scenario == "faulty"), prefail=prefail, hist=hist, deaf=deaf)
 
 
 CANCEL_AFTER = (0.3, 1.0, 2.5, 6.0, 11.0, 13.0)
@@ -130,7 +135,7 @@ CANCEL_AFTER = (0.3, 1.0, 2.5, 6.0, 11.0, 13.0)
 HISTORIES = (None, "overlap", "churn", "both")
 
 
-def run_one(workload, kind, code, at, tape, sched, detail, dry=False, faulty=False, cancel_after=None, prefail=False, rst_delay=0.3, hist=None):
+def run_one(workload, kind, code, at, tape, sched, detail, dry=False, faulty=False, cancel_after=None, prefail=False, rst_delay=0.3, hist=None, deaf=None):
     sock = workload == "startup"
     if faulty:
         # link faults (and read chunking, NCP window) until the injection; the failure itself is then delivered over a clean line
@@ -204,6 +209,9 @@ def run_one(workload, kind, code, at, tape, sched, detail, dry=False, faulty=Fal
             nash.do_reset(code)
         elif kind == "silent":
             nash.silent = True
+            nash.silent_mode = deaf
+            if deaf:
+                probe("silent_but_nak." + deaf)
             nash._cancel_ack_timer()
         elif kind == "lost":
             st["exc"] = ConnectionResetError("simulated loss")
